@@ -14,7 +14,7 @@ import math
 from hypothesis import strategies as st
 
 from .. import simenv
-from ..core import Lab, Violation, exc_violation
+from ..core import HarnessError, Lab, Violation, exc_violation
 
 PARAMS = ("tm", "state_tm", "initial_call")
 TOL = 1e-9
@@ -120,6 +120,13 @@ def class_source(case, base):
                 body.append(f"        '''doc of {sd['n']}'''")
             body.append(f"        self._hit({sd['n']!r}, {{{argd}}})")
             seen.append(sd["n"])
+        if lvl == spec_levels - 1 and case.get("busy_prop"):
+            # a subclass may extend the read-only property (a mechanism that also counts as busy while it coasts);
+            # the machine's own bookkeeping does not depend on what the override reports
+            body.append("    _busy_flag = False")
+            body.append("    @property")
+            body.append("    def is_executing(self):")
+            body.append("        return super().is_executing or self._busy_flag")
         if not body:
             body = ["    pass"]
         out.extend(body)
@@ -346,6 +353,7 @@ class SpecSM:
             if self.requested:
                 self.start, self.start_d = now, now_d
                 self.executing = True
+                self.left_selected = None
                 ctx["start"] = True
                 self.bump("start")
                 if self.after_fallback:
@@ -457,6 +465,11 @@ class SpecSM:
             if act and act[0] == "ns":
                 self.bump("act:next_state")
                 self._enter(act[1])
+                if c == sp.default and not self.executing:
+                    # the default state selected a regular state on a stopped machine: current_state names it from
+                    # now on (nothing runs done() when the selection is dropped again), which no statement forbids
+                    self.left_selected = act[1]
+                    self.bump("act:default-selects-state")
             elif act and act[0] == "nsn":
                 self.bump("act:next_state_now")
                 self._enter(act[1])
@@ -719,6 +732,12 @@ class Driver:
 
         def flags_check(where, after_execute):
             ie = m.is_executing
+            if case.get("busy_prop"):
+                from magicbot import state_machine as smm
+
+                if ie != (m._busy_flag or smm.StateMachine.is_executing.fget(m)):
+                    raise HarnessError("overridden is_executing property is not what the generated class defines")
+                ie = smm.StateMachine.is_executing.fget(m)
             csa = m.current_state
             csn = cs_sub.get()
             lab_ = model._label(self.ctx or {}, model.cur)
@@ -790,6 +809,10 @@ class Driver:
                             # consumed more script entries: re-align the in-state scripts with the machine under test
                             twin._scripts = {k: [list(a) for a in v] for k, v in m._scripts.items()}
                             tw_running = True
+                    elif k == "busy":
+                        m._busy_flag = bool(op[1])
+                        model.bump("busy-override:" + ("on" if op[1] else "off"))
+                        continue
                     elif k == "gap":
                         # time passes between the robot program's calls of one loop iteration (engage() early in
                         # teleopPeriodic, execute() later): the machine's clock starts at its first execute()
@@ -1091,7 +1114,7 @@ def decode_shape(code, profile):
         pos, sig_c, lvl, doc, script = dcode
         states.insert(pos % (len(states) + 1), {
             "n": "idle", "kind": "default", "sig": SIGS[sig_c], "doc": bool(doc), "lvl": lvl % levels,
-            "script": [["done"] if x == 3 else ["none"] for x in script]})
+            "script": [["done"] if x == 3 else ["ns", names[(pos + j) % nreg]] if x == 2 and sig_c % 2 else ["none"] for j, x in enumerate(script)]})
     case = {"states": states}
     present, which, mode, lvl_up, dur_pool, sig_c, nxt_c = ocode
     cand = [sd for sd in states if sd["kind"] != "default" and sd["lvl"] < levels - 1]
@@ -1118,6 +1141,13 @@ def decode_shape(code, profile):
         elif m == "mf":
             o["mf"] = not o.get("mf")
         case["over"] = [o]
+    # a default state that selects a regular state itself (nobody engaged): only targets that are not must_finish
+    mf_eff = {sd["n"]: bool(sd.get("mf")) for sd in states}
+    for od in case.get("over", []):
+        mf_eff[od["n"]] = bool(od.get("mf"))
+    for sd in states:
+        if sd["kind"] == "default":
+            sd["script"] = [(["none"] if a[0] == "ns" and mf_eff[a[1]] else a) for a in sd["script"]]
     if diamond and max([sd["lvl"] for sd in states] + [od["lvl"] for od in case.get("over", [])]) == 2:
         case["diamond"] = True
         for sd in states + case.get("over", []):
@@ -1168,6 +1198,8 @@ def decode_sm_case(code, profile):
             pre.insert(0, ["on_enable"])
         elif extra == 36:
             pre.append(["ns", names[tgt % len(names)]])
+        elif 24 <= extra <= 31 and t0_c == 4 and cname_c == 0:
+            pre.insert(0, ["busy", extra % 2 == 0])
         elif extra in (32, 33) and pre:
             pre.append(["gap", [1, 5_000, 15_000, 20_000, 100_000][pos]])
         elif extra in (34, 35) and timed:
@@ -1185,6 +1217,18 @@ def decode_sm_case(code, profile):
         case["bases_first"] = True
     if cname_c == 1 and timed and not case.get("auto"):
         case["pre_dur"] = {timed[t0_c % len(timed)]: [30_000, 70_001, 1, 250_000, 20_000, 500][t0_c]}
+    if t0_c == 5 and cname_c == 0:
+        # done() followed by next_state() in one state body leaves a selection behind on a stopped machine
+        mf_eff = {sd["n"]: bool(sd.get("mf")) for sd in case["states"]}
+        for od in case.get("over", []):
+            mf_eff[od["n"]] = bool(od.get("mf"))
+        plain = [n for n in names if not mf_eff[n]]
+        if plain:
+            for k, sd in enumerate(case["states"]):
+                if sd["kind"] != "default":
+                    sd["script"] = [(["dns", plain[(k + j) % len(plain)]] if a == ["done"] else a) for j, a in enumerate(sd["script"])]
+    if t0_c == 4 and cname_c == 0:
+        case["busy_prop"] = True
     if t0_c in (4, 5) and "over" not in case:
         case["sibling"] = True  # a second instance of the same class is driven on the side
     return case
